@@ -52,6 +52,19 @@ pub fn run(args: &Args) {
                 }
             }
         };
+        if let Ok(spec) = std::env::var("UVH_DEBUG_CELL") {
+            // "sheet:A1" -> what the workbook holds there before any save
+            let (si, a1) = spec.split_once(':').unwrap();
+            let ws = book.get_sheet(&si.parse::<usize>().unwrap()).unwrap();
+            let c = ws.get_cell(a1);
+            let (col, row) = c.map(|c| (*c.get_coordinate().get_col_num(), *c.get_coordinate().get_row_num())).unwrap_or((0, 0));
+            eprintln!("DEBUG {} cell={:?} value={:?} style_default={:?} coldim={:?} rowdim={:?} merges={:?} tables={}", spec, c.is_some(), c.map(|c| c.get_value().to_string()), c.map(|c| c.get_style() == &Style::default()),
+                ws.get_column_dimension_by_number(&col).map(|d| d.get_style() != &Style::default()), ws.get_row_dimension(&row).map(|d| d.get_style() != &Style::default()), ws.get_merge_cells().iter().map(|m| m.get_range()).collect::<Vec<_>>(), ws.get_tables().len());
+            let bytes = save(&book, false).unwrap();
+            let xml = crate::zipx::read_part(&bytes, &format!("xl/worksheets/sheet{}.xml", si.parse::<usize>().unwrap() + 1)).unwrap();
+            let i = xml.find(&format!("<c r=\"{}\"", a1));
+            eprintln!("DEBUG in file: {:?}; hyperlink={:?} comment={:?}", i.map(|i| xml[i..(i + 120).min(xml.len())].to_string()), c.and_then(|c| c.get_hyperlink().map(|h| h.get_url().to_string())), ws.get_comments().iter().any(|cm| cm.get_coordinate().get_coordinate() == a1));
+        }
         let at = |sig: &str| if is_corpus { format!("{}@{}", sig, origin) } else { sig.to_string() };
         let d0 = match dump_book_guarded(&book, Sections::ALL) {
             Ok(d) => d,
@@ -136,7 +149,18 @@ pub fn run(args: &Args) {
         // normal form of orig~gen1: a font that is None on one side and Some on the other is a wildcard
         // (None = font 0 of that file's style sheet, not observable through the API)
         let wild: Vec<&String> = explicit0.symmetric_difference(&explicit1).collect();
-        report(&mut o, &at("orig~gen1"), &dumps[0], &dumps[1], &|key: &str| key.contains("font.") && wild.iter().any(|p| key.starts_with(p.as_str())));
+        // a cell that held nothing of its own in the original (no value, no formula, no formatting; it exists because a hyperlink
+        // or a comment sits on it) is re-created on load and then shows the formatting of its row / column, as a new cell does
+        let nothing_of_its_own = |key: &str| -> bool {
+            match key.split_once("/style/") {
+                Some((sheet, rest)) => {
+                    let a1 = rest.split('/').next().unwrap_or("");
+                    !dumps[0].keys().any(|k| k.starts_with(&format!("{}/style/{}/", sheet, a1)) || k.starts_with(&format!("{}/cell/{}/", sheet, a1)))
+                }
+                None => false,
+            }
+        };
+        report(&mut o, &at("orig~gen1"), &dumps[0], &dumps[1], &|key: &str| (key.contains("font.") && wild.iter().any(|p| key.starts_with(p.as_str()))) || nothing_of_its_own(key));
         report(&mut o, "gen1=gen2", &dumps[1], &dumps[2], &|_| false);
         report(&mut o, "gen2=gen3", &dumps[2], &dumps[3], &|_| false);
         // single-cell edit on the loaded workbook
